@@ -19,11 +19,13 @@ pub fn budgets_for(spec: &RunSpec) -> Vec<Budget> {
                     ..i.clone()
                 }],
                 sched_seed: 0,
+                phased: false,
+                solo_baselines: true,
             };
             let r = execute(
                 &solo,
                 &[Budget::REFERENCE],
-                &ExecOpts { record: false, keep_tail: 0, rec_polls: false, check_isolation: false },
+                &ExecOpts { record: false, keep_tail: 0, rec_polls: false, check_isolation: false, rec_items: false },
             );
             let s = &r.insts[0];
             Budget { max_calls: s.calls + 1000, max_polls: s.polls + 64 }
@@ -111,6 +113,11 @@ pub fn minimise(orig: &RunSpec, orig_budgets: &[Budget], v0: &Violation) -> Mini
         {
             let mut c = cur.clone();
             c.sched_seed = 0;
+            progress |= attempt!(c);
+        }
+        if cur.phased {
+            let mut c = cur.clone();
+            c.phased = false;
             progress |= attempt!(c);
         }
         for i in 0..cur.instances.len() {
@@ -262,4 +269,96 @@ pub fn minimise(orig: &RunSpec, orig_budgets: &[Budget], v0: &Violation) -> Mini
         }
     }
     Minimised { spec: cur, budgets: cur_b, violation: cur_v, steps_tried: tried, steps_accepted: accepted }
+}
+
+/// Minimisation for violations that depend on state surviving between solver instances in one
+/// process (found by the hermeticity gate): candidates cannot be judged in this process, whose
+/// state is already disturbed, so each candidate is written out and replayed in a fresh process.
+/// Only the list of instances is reduced (ddmin); budgets stay fixed.
+pub fn minimise_fresh(
+    exe: &std::path::Path,
+    scratch_dir: &str,
+    orig: &RunSpec,
+    budget: Budget,
+    v0: &Violation,
+) -> Minimised {
+    let class = v0.class;
+    let tried = std::cell::Cell::new(0u64);
+    let mut accepted = 0u64;
+    let _ = std::fs::create_dir_all(scratch_dir);
+    let tmp = format!("{}/.candidate-{}.json", scratch_dir.trim_end_matches('/'), std::process::id());
+    let eval = |c: &RunSpec| -> Option<Violation> {
+        tried.set(tried.get() + 1);
+        let n = c.instances.len();
+        let j = crate::json::J::obj(vec![
+            ("property", crate::json::J::s("C06")),
+            ("class", crate::json::J::s(class)),
+            ("spec", c.to_json()),
+            ("budgets", crate::run::budgets_to_json(&vec![budget; n])),
+        ]);
+        if std::fs::write(&tmp, j.to_string_compact()).is_err() {
+            return None;
+        }
+        let out = std::process::Command::new(exe).arg("replay").arg(&tmp).arg("--terse").output().ok()?;
+        if out.status.code() != Some(1) {
+            return None;
+        }
+        let text = String::from_utf8_lossy(&out.stdout);
+        let line = text.lines().find(|l| l.starts_with("REPRODUCED "))?;
+        // REPRODUCED class=<c> instance=<i>: <detail>
+        let inst = line
+            .split("instance=")
+            .nth(1)
+            .and_then(|r| r.split(':').next())
+            .and_then(|x| x.trim().parse::<u32>().ok())
+            .unwrap_or(0);
+        let detail = line.splitn(2, ": ").nth(1).unwrap_or("").to_string();
+        Some(Violation { class, inst, detail })
+    };
+    let mut cur = orig.clone();
+    let mut cur_v = match eval(&cur) {
+        Some(v) => v,
+        None => {
+            let _ = std::fs::remove_file(&tmp);
+            let n = orig.instances.len();
+            return Minimised { spec: orig.clone(), budgets: vec![budget; n], violation: v0.clone(), steps_tried: tried.get(), steps_accepted: 0 };
+        }
+    };
+    // ddmin over the instance list
+    let mut chunk = (cur.instances.len() / 2).max(1);
+    loop {
+        let mut removed_any = false;
+        let mut i = 0;
+        while i < cur.instances.len() && cur.instances.len() > 1 && tried.get() < 1500 {
+            let hi = (i + chunk).min(cur.instances.len());
+            let mut c = cur.clone();
+            c.instances.drain(i..hi);
+            if c.instances.is_empty() {
+                i = hi;
+                continue;
+            }
+            match eval(&c) {
+                Some(v) => {
+                    cur = c;
+                    cur_v = v;
+                    accepted += 1;
+                    removed_any = true;
+                }
+                None => i = hi,
+            }
+        }
+        if tried.get() >= 1500 {
+            break;
+        }
+        if chunk == 1 {
+            if !removed_any {
+                break;
+            }
+        } else {
+            chunk = (chunk / 2).max(1);
+        }
+    }
+    let _ = std::fs::remove_file(&tmp);
+    let n = cur.instances.len();
+    Minimised { spec: cur, budgets: vec![budget; n], violation: cur_v, steps_tried: tried.get(), steps_accepted: accepted }
 }
